@@ -377,8 +377,14 @@ func prepareCall(fr *frame, call *ssa.CallCommon) (fn value, args []value) {
 		fn = v
 	} else {
 		recv := v.(iface)
+		if recv.t == nil && fr.m.inInit > 0 && call.Method.Pkg() != nil && !fr.m.eng.interpreted(call.Method.Pkg().Path()) {
+			// initialiser chaining calls on an opaque external object we left nil
+			res := call.Signature().Results()
+			fr.m.res.initSkipped++
+			return &nativeFunc{name: "init-opaque", fn: func(*frame, []value) value { return zero(res) }}, nil
+		}
 		if recv.t == nil {
-			fr.m.runtimePanic("invalid memory address or nil pointer dereference (method " + call.Method.Name() + " on nil interface)")
+			fr.m.runtimePanic("invalid memory address or nil pointer dereference (method " + call.Method.Name() + " on nil interface)" + fr.m.stackString())
 		}
 		f := fr.m.eng.lookupMethod(recv.t, call.Method)
 		if f == nil {
